@@ -27,7 +27,8 @@ Monotonicity is decided for the regenerated programs by a syntactic condition (`
 (run on a copy of each program with features renamed to indices); both are evaluated by
 `decide +kernel` and their soundness for ALL input kinds is proved generically
 (`C09_monoB_sound`, `C09_transformer_monotone`, `C09_never_declares`); totality (no failing
-assertion at the latest version) is `C09_transformer_total`.
+assertion at the latest version) is `C09_transformer_total`.  Kinds of OLDER versions (a declaration
+first upgrades them, `utils._kind_at_latest_version`): `Props/C09Versions.lean`.
 -/
 namespace UPVerif.C09
 open UPVerif.Kind UPVerif.KindProg UPVerif.Gen.Kinds
@@ -292,8 +293,17 @@ example : (Prog.ite (.has .cur [0]) (.unset 1 .done) .done .done : Prog Nat).mon
 example : (Prog.ite (.has .cur [0]) (.unset 1 .done) .done .done : Prog Nat).neverCheck 1 = false := by
   decide +kernel
 
-/-- the version assertion of `_set` is modelled: `DurativeActionToProcesses` on a version-2 kind -/
-example : DurativeActionToProcesses.resultingKind T { feats := ["ACTION_BASED"], version := some 2 } = none := by
+/-- the version assertion of `_set` is modelled: the body of `DurativeActionToProcesses` started from
+    `problem_kind.clone()` (what every class did before `utils._kind_at_latest_version`) sets the
+    version-3 feature PROCESSES on a version-2 kind … -/
+example : ({ DurativeActionToProcesses with atLatest := false } : Decl).resultingKind T
+    { feats := ["ACTION_BASED"], version := some 2 } = none := by
+  decide +kernel
+
+/-- … the declaration as it is starts from the kind upgraded to the latest version and declares a
+    version-3 kind (all versions: `Props/C09Versions.lean`) -/
+example : (DurativeActionToProcesses.resultingKind T { feats := ["ACTION_BASED"], version := some 2 }).map
+    (fun k => (k.version, k.feats.contains "PROCESSES")) = some (some 3, true) := by
   decide +kernel
 
 end examples
